@@ -439,6 +439,25 @@ def build(ctx):
     return top
 
 
+async def cancelled_by_caller(ctx, top, when):
+    """the caller runs co_run() in a task of its own and cancels it at instant `when`
+    (what asyncio.wait_for or a surrounding TaskGroup would do)"""
+    loop = ctx.loop
+    task = asyncio.ensure_future(top.co_run())
+
+    def fire():
+        if not task.done():
+            ctx.log("ucancel", 1)
+            task.cancel()
+    handle = loop.call_at(when, fire)
+    try:
+        return await task
+    except asyncio.CancelledError:
+        return "cancelled"
+    finally:
+        handle.cancel()
+
+
 def horizon_of(cfg):
     tot = 10
     for key in ("dur", "sdur", "cdur", "scdur", "tmo", "stmo"):
@@ -460,10 +479,15 @@ def run_scenario(sc):
         with contextlib.redirect_stdout(sink):
             top = build(ctx)
             loop.on_tick = ctx.tick
+            ucancel = ctx.cfg.get("ucancel", -1)
             try:
-                val = top.run()
+                if ucancel >= 0:
+                    val = loop.run_until_complete(cancelled_by_caller(ctx, top, ucancel))
+                else:
+                    val = top.run()
                 topv, topi = ("true" if val is True else
-                              "false" if val is False else "other"), 0
+                              "false" if val is False else
+                              "cancelled" if val == "cancelled" else "other"), 0
             except Deadlock:
                 topv, topi = "deadlock", 0
             except Livelock:
@@ -475,11 +499,12 @@ def run_scenario(sc):
                 ctx.snap()
             ctx.log("top", 1, topv, topi)
             if topv not in ("deadlock", "livelock"):
-                # a later explicit shutdown must send nothing
-                try:
-                    top.shutdown()
-                except (Deadlock, Livelock):
-                    ctx.log("late-hang", 1)
+                if topv != "cancelled":
+                    # a later explicit shutdown must send nothing
+                    try:
+                        top.shutdown()
+                    except (Deadlock, Livelock):
+                        ctx.log("late-hang", 1)
                 # let the loop run on: nothing may happen any more
                 ctx.log("leftover", 1, num=len(loop.unfinished()))
                 loop.horizon = loop.vtime + hor + 1
